@@ -120,6 +120,19 @@ func (g *ogen) jxNode() onode {
 			{"{{range li}}{{ " + ok + " := . }}{{yield " + bn + "(" + pn + "=.)}}{{end}}[{{isset(" + ok + ")}}]", "[" + g.E("false") + "]"},
 		}
 	}
+	if r.Chance(8) || g.flavor == "try" && r.Chance(30) {
+		// a try around a content yield WITH a context: when the caller's content fails, '.' is the block's again after the try
+		g.nblock++
+		bn := fmt.Sprintf("jwrap%d", g.nblock)
+		g.lib += "{{block " + bn + "()}}<{{.}}{{try}}{{yield content \"inner\"}}{{catch}}!{{end}}{{.}}>{{end}}"
+		g.lib += "{{block " + bn + "b(p=1)}}<{{.}}{{try}}a{{yield content p}}{{end}}{{.}}{{p}}>{{end}}"
+		cs = []gc{
+			{"{{yield " + bn + "() \"c0\" content}}{{ nope }}{{end}}", "<" + g.E("c0") + "!" + g.E("c0") + ">"},
+			{"{{yield " + bn + "() \"c0\" content}}ok{{.}}{{end}}", "<" + g.E("c0") + "ok" + g.E("inner") + g.E("c0") + ">"},
+			{"{{yield " + bn + "b(p=7) \"c1\" content}}{{.}}{{ li[9] }}{{end}}", "<" + g.E("c1") + g.E("c1") + g.E(7) + ">"},
+			{"{{range li}}{{yield " + bn + "() . content}}{{ 1 % zero }}{{end}}{{end}}", "<" + g.E(3) + "!" + g.E(3) + "><" + g.E(0) + "!" + g.E(0) + "><" + g.E(7) + "!" + g.E(7) + ">"},
+		}
+	}
 	c := cs[r.Intn(len(cs))]
 	// each flavour leans towards the constructs that speak about its own property
 	want := map[string]string{"fields": r.Pick([]string{"pets", "m8[", "mi1[", "nerr"}), "isset": r.Pick([]string{"mn[", "langs", "nerr.Errs"}), "try": "{{try}}", "include": "octx", "control": r.Pick([]string{"nan", "owide", "else if", "range _"}), "calls": r.Pick([]string{"| rec", "opipe"}), "escape": r.Pick([]string{"owr", "nerr"}), "errors": r.Pick([]string{"nerr", "range _", "mu1["}), "scope": "else if"}[g.flavor]
